@@ -269,6 +269,20 @@ theorem roundtrip_leg_witness :
     (lfeed (LRecv.init 3) (gstuffingLeg [0x00#8])).1.size = 2 ∧
     (lfeed (LRecv.init 3) (gstuffingLeg [0x00#8])).1.getline ≠ [0x00#8] := by decide +kernel
 
+/-- the excluded region of `roundtrip_leg_partial`, exactly: read literally ("the content handed over
+equals the payload") the clause fails for EVERY payload, not only for the witness — what `sline_getline`
+/ `sline_size` hand over after the frame of `p` is never `p` (it is one byte longer) -/
+theorem roundtrip_leg_never_payload (p : List Byte) (cap : Nat) (hcap : p.length + 2 ≤ cap) :
+    (lfeed (LRecv.init cap) (gstuffingLeg p)).1.getline ≠ p ∧
+    (lfeed (LRecv.init cap) (gstuffingLeg p)).1.size ≠ p.length := by
+  obtain ⟨ss, r', e, _, g1, g2, _, _⟩ := roundtrip_leg_partial p cap hcap
+  rw [e]
+  refine ⟨?_, by simp only [g2]; omega⟩
+  intro h
+  have := congrArg List.length h
+  rw [g1] at this
+  simp at this
+
 /-- historical: before the repair the legacy encoder wrote the CRC unescaped;
 for the payload [00] the CRC is the start marker itself -/
 theorem legacy_crc_is_marker_witness : strmcrc8 0xFF#8 [0x00#8] = legStart := by decide
